@@ -19,7 +19,8 @@ RULE_TEXT = ("C02-R: on every loop-body path of Interface::run the path variable
              "crate defines no Future/poll machinery."
              " C02-K: the buffer discipline of process (rules K1-K7 of C07) - run is handed one whole message per call."
              " C02-C04X: a unit's response - terminator and flush - is completed by execute itself, which run awaits in place (rule C04-X)."
-             " C02-H also: parse resolves the header once, with (root, path) - no second lookup from the root.")
+             " C02-H also: parse resolves the header once, with (root, path) - no second lookup from the root."
+             " C02-H also: a failure of the compound lookup is never returned as it is. C02-C06R: the exits of run per path (Incomplete hands back the unfinished unit, errors resume behind the message) - rule C06-R: no unit is offered twice.")
 
 COMPOUND = "microscpi::parser::compound_command_program_header"
 COMMON = "microscpi::parser::common_command_program_header"
